@@ -26,6 +26,16 @@ impl World {
         Ok(Self { router, trace: Vec::new(), tracing: std::env::var("NV_C08_TRACE").is_ok() })
     }
 
+    /// Same router with auto-checkpoints on (taken before destructive statements), still without
+    /// interactive confirmation.
+    pub fn new_auto(max_cp: usize) -> Result<Self, Fail> {
+        let mut router = QueryRouter::with_shared_store(TensorStore::new());
+        router.init_blob().map_err(|e| Fail::new("setup-failed", format!("init_blob: {e}")))?;
+        let cfg = CheckpointConfig::default().with_max_checkpoints(max_cp).with_auto_checkpoint(true).with_interactive_confirm(false);
+        router.init_checkpoint_with_config(cfg).map_err(|e| Fail::new("setup-failed", format!("init_checkpoint: {e}")))?;
+        Ok(Self { router, trace: Vec::new(), tracing: std::env::var("NV_C08_TRACE").is_ok() })
+    }
+
     /// The path the shell and the server use.
     pub fn exec(&mut self, text: &str) -> Result<QueryResult, RouterError> {
         let r = self.router.execute_parsed(text);
